@@ -22,7 +22,7 @@ Theorem C13_execute_amounts fx s s' :
   /\ s_burn s - 1 <= burnt + s_reward s' <= s_burn s
   /\ s_esc s - s_esc s' = burnt + (if is_invalid (s_result s) then s_slash s
                                    else if is_support (s_result s) then 0
-                                   else s_slash s + (s_slash s - s_burn s))
+                                   else s_slash s + (s_feetotal s - s_burn s))
   /\ 0 <= s_esc s' /\ s_liq s' = s_liq s /\ s_dust s' = s_dust s /\ s_payers s' = s_payers s.
 Proof. exact (execute_vote_amounts fx s s'). Qed.
 Print Assumptions C13_execute_amounts.
@@ -144,13 +144,24 @@ Theorem C13_multi_round_refuted :
 Proof. exact F22_witness. Qed.
 Print Assumptions C13_multi_round_refuted.
 
-(* F12: sixth round, AGAINST: negative amount, the begin blocker fails; fifth round: 150000 re-staked, 67500 moved *)
+(* F12 (code as found: the reporter's part was SlashAmount - BurnAmount): sixth round, AGAINST: negative amount, the begin
+   blocker fails (a chain halt, C02); fifth round: 150000 re-staked, 67500 moved *)
 Theorem C13_burn_exceeds_slash_refuted :
-  snd (exec_block true st_r6) = EOther /\ s_slash st_r6 + (s_slash st_r6 - s_burn st_r6) < 0
-  /\ (let s := fst (exec_block true st_r5) in
+  snd (exec_block_gen true false st_r6) = EOther /\ s_slash st_r6 + (s_slash st_r6 - s_burn st_r6) < 0
+  /\ (let s := fst (exec_block_gen true false st_r5) in
       s_esc st_r5 - s_esc s - (s_burned s - s_burned st_r5) = 67500 /\ getz (s_stk s) 0 - getz (s_stk st_r5) 0 = 150000).
 Proof. exact F12_witness. Qed.
 Print Assumptions C13_burn_exceeds_slash_refuted.
+
+(* F12 repaired (as in /repo now: FeeTotal - BurnAmount): both execute, the backers get stake + fee total - burn amount and
+   the escrow is paid out exactly *)
+Theorem C13_burn_exceeds_slash_repaired :
+  (let s := fst (exec_block true st_r6) in
+   snd (exec_block true st_r6) = OK /\ s_esc s = 0 /\ getz (s_stk s) 0 - getz (s_stk st_r6) 0 = 150000 + (525000 - s_burn st_r6))
+  /\ (let s := fst (exec_block true st_r5) in
+      snd (exec_block true st_r5) = OK /\ s_esc s = 0 /\ getz (s_stk s) 0 - getz (s_stk st_r5) 0 = 150000 + (375000 - s_burn st_r5)).
+Proof. exact F12_repaired. Qed.
+Print Assumptions C13_burn_exceeds_slash_repaired.
 
 (* F23: two payers from stake: the first refund is split over both and removes the tracker *)
 Theorem C13_two_bond_payers_refuted :
